@@ -131,7 +131,7 @@ Definition rtr_alloc (cs : chipstate) (count : Z) : chipstate * Z :=
        | Some (b, _) => (set_free cs (take_block b count (cs_free cs)), b)
        end.
 
-Fixpoint set_nth {A} (n : nat) (x : A) (l : list A) : list A :=
+Fixpoint set_nth {A} (n : nat) (x : A) (l : list A) {struct l} : list A :=
   match l with
   | [] => []
   | y :: l' => match n with O => x :: l' | S n' => y :: set_nth n' x l' end
